@@ -35,6 +35,9 @@ extern size_t g_k2;
 #define OFF(base) ((size_t)__CPROVER_POINTER_OFFSET(base))
 #define GK_IN(base, lo, hi) (g_k >= OFF(base) + (lo) && g_k < OFF(base) + (hi))
 #define GK_AT(base) ((base)[g_k - OFF(base)])
+/* a cursor pointer inside base[0..n] (one past the end allowed), stated on offsets: no pointer relations on havoced pointers */
+#define PTR_IN(q, base, n) (__CPROVER_same_object((q), (base)) && OFF(q) >= OFF(base) && OFF(q) <= OFF(base) + (n))
+#define PTR_IDX(q, base) (OFF(q) - OFF(base))
 #define GK2_IN(base, lo, hi) (g_k2 >= OFF(base) + (lo) && g_k2 < OFF(base) + (hi))
 #define GK2_AT(base) ((base)[g_k2 - OFF(base)])
 
@@ -55,8 +58,14 @@ typedef struct { const uint32_t *p; size_t n; } u32sv_t;
  *   kernel; a fixed-size object is flattened and costs seconds. */
 #ifdef BUF_N
 extern char g_buf[BUF_N], g_buf2[BUF_N];
-#define SV_VALID(v, maxn) ((v).n <= BUF_N && (v).n <= (maxn) && (v).p == g_buf + (BUF_N - (v).n))
-#define SV_VALID2(v, maxn) ((v).n <= BUF_N && (v).n <= (maxn) && (v).p == g_buf2 + (BUF_N - (v).n))
+#ifdef BUF_START   /* fully unwound functional checks: view at offset 0 (constant indices after unrolling; over-reads
+                      up to BUF_N are then NOT caught here -- memory safety of the function is another obligation's job) */
+#define BUF_AT(buf, n) (buf)
+#else
+#define BUF_AT(buf, n) ((buf) + (BUF_N - (n)))
+#endif
+#define SV_VALID(v, maxn) ((v).n <= BUF_N && (v).n <= (maxn) && (v).p == BUF_AT(g_buf, (v).n))
+#define SV_VALID2(v, maxn) ((v).n <= BUF_N && (v).n <= (maxn) && (v).p == BUF_AT(g_buf2, (v).n))
 #ifdef WITNESS   /* counterexample extraction run: every byte is an explicit assignment visible in the trace */
 #define WB_(i) g_buf[i] = nondet_char(); g_buf2[i] = nondet_char();
 #define HAVOC_BUFS do { WB_FILL } while (0)
@@ -64,8 +73,8 @@ extern char g_buf[BUF_N], g_buf2[BUF_N];
 #define HAVOC_BUFS do { __CPROVER_havoc_object(g_buf); __CPROVER_havoc_object(g_buf2); } while (0)
 #endif
 /* the harness must *assign* the pointer (an assumed pointer equality does not inform CBMC's points-to sets) */
-#define MAKE_SV(v) do { __CPROVER_assume((v).n <= BUF_N); (v).p = g_buf + (BUF_N - (v).n); } while (0)
-#define MAKE_SV2(v) do { __CPROVER_assume((v).n <= BUF_N); (v).p = g_buf2 + (BUF_N - (v).n); } while (0)
+#define MAKE_SV(v) do { __CPROVER_assume((v).n <= BUF_N); (v).p = BUF_AT(g_buf, (v).n); } while (0)
+#define MAKE_SV2(v) do { __CPROVER_assume((v).n <= BUF_N); (v).p = BUF_AT(g_buf2, (v).n); } while (0)
 #else
 #define SV_VALID(v, maxn) ((v).n <= (maxn) && __CPROVER_is_fresh((v).p, (v).n))
 #define SV_VALID2(v, maxn) SV_VALID(v, maxn)
@@ -326,7 +335,7 @@ typedef struct { _Bool has; str_t v; } opt_str_t;
 typedef struct { _Bool has; uint16_t v; } opt_uint16_t;
 typedef struct { _Bool has; uint32_t v; } opt_uint32_t;
 typedef struct { size_t first; _Bool second; } pair_size_t_Bool_t;
-typedef struct { unsigned long first; _Bool second; } pair_unsigned_long_Bool_t;
+typedef pair_size_t_Bool_t pair_unsigned_long_Bool_t;
 typedef struct { uint16_t a[8]; } arr_uint16_t_8_t;
 typedef struct { unsigned short a[8]; } arr_unsigned_short_8_t;
 typedef struct { uint8_t a[256]; } arr_uint8_t_256_t;
